@@ -149,6 +149,46 @@ package round
 //@   loop 2 invariant forall k in 0..$idx+1 :: old(r.notarizedBlocks[k]).Hash != b.Hash ==> r.notarizedBlocks[k] == old(r.notarizedBlocks[k])
 //@   loop 2 invariant forall k in $idx+1..len(r.notarizedBlocks) :: r.notarizedBlocks[k] == old(r.notarizedBlocks[k])
 
+// "a round keeps at most one notarized block per rank"
+//@ spec distinctRanks(r *Round) bool = forall i in 0..len(r.notarizedBlocks) :: forall j in i+1..len(r.notarizedBlocks) :: r.notarizedBlocks[i].RoundRank != r.notarizedBlocks[j].RoundRank
+
+// addProposedBlock replaces or inserts b in the proposed list (then re-sorts it): it writes the
+// proposed list only.
+//@ func (*Round).addProposedBlock
+//@   prop C35
+//@   requires r != nil && b != nil && (forall i in 0..len(r.proposedBlocks) :: r.proposedBlocks[i] != nil)
+//@   modifies r.proposedBlocks, r.proposedBlocks[*]
+
+// Adding a notarized block keeps the one-block-per-rank invariant: a block with the hash of b
+// already present means nothing is added; otherwise an existing block of b's rank is dropped and b
+// is added, so afterwards b is present and no two notarized blocks share a rank.
+//@ func (*Round).AddNotarizedBlock
+//@   prop C35
+//@   requires r != nil && b != nil && held(r.mutex) == 0 && rheld(r.mutex) == 0 && blocksNonNil(r) && distinctRanks(r)
+//@   requires held(b.ticketsMutex) == 0 && rheld(b.ticketsMutex) == 0
+//@   requires obj(r.notarizedBlocks) != obj(r.proposedBlocks) || len(r.notarizedBlocks) == 0
+//@   ensures[one-per-rank] distinctRanks(r)
+//@   ensures[at-most-one-more] len(r.notarizedBlocks) <= old(len(r.notarizedBlocks)) + 1
+//@   ensures[added-or-already-there] exists i in 0..len(r.notarizedBlocks) :: r.notarizedBlocks[i].Hash == b.Hash
+// after the block of b's rank (if any) has been dropped: nothing of that rank is left
+//@   at-call SetBlockNotarized assert[kept-nonnil] len(r.notarizedBlocks) <= old(len(r.notarizedBlocks)) && (forall i in 0..len(r.notarizedBlocks) :: r.notarizedBlocks[i] != nil)
+//@   at-call SetBlockNotarized assert[rank-free] forall i in 0..len(r.notarizedBlocks) :: r.notarizedBlocks[i].RoundRank != b.RoundRank
+//@   at-call SetBlockNotarized assert[kept-distinct] distinctRanks(r)
+// what goes into the final sort: the kept blocks followed by b, no rank twice
+//@   at-call Slice assert[b-last-before-sort] len(rnb) >= 1 && len(rnb) <= old(len(r.notarizedBlocks)) + 1 && rnb[len(rnb)-1] == b
+//@   at-call Slice assert[distinct-before-sort] forall i in 0..len(rnb) :: forall j in i+1..len(rnb) :: rnb[i].RoundRank != rnb[j].RoundRank
+//@   lock-balanced r.mutex
+//@   loop 1 header "for i, blk := range r.notarizedBlocks"
+//@   loop 1 invariant held(r.mutex) == 1 && rheld(r.mutex) == 0 && r.notarizedBlocks == old(r.notarizedBlocks)
+//@   loop 1 invariant forall k in 0..len(r.notarizedBlocks) :: r.notarizedBlocks[k] == old(r.notarizedBlocks[k])
+//@   loop 1 invariant forall k in 0..len(r.notarizedBlocks) :: r.notarizedBlocks[k] != nil
+//@   loop 1 invariant forall k in 0..len(r.notarizedBlocks) :: forall j in k+1..len(r.notarizedBlocks) :: r.notarizedBlocks[k].RoundRank != r.notarizedBlocks[j].RoundRank
+//@   loop 1 invariant b.RoundRank == old(b.RoundRank)
+//@   loop 1 invariant forall k in 0..$idx+1 :: r.notarizedBlocks[k].Hash != b.Hash
+//@   loop 1 invariant found == -1 ==> (forall k in 0..$idx+1 :: r.notarizedBlocks[k].RoundRank != b.RoundRank)
+//@   loop 1 invariant found != -1 ==> 0 <= found && found <= $idx && r.notarizedBlocks[found].RoundRank == b.RoundRank
+//@   loop 1 invariant found != -1 ==> (forall k in 0..$idx+1 :: k != found ==> r.notarizedBlocks[k].RoundRank != b.RoundRank)
+
 // ---------------------------------------------------------------- round state (C37)
 
 //@ func (*Round).setPhase
